@@ -365,7 +365,10 @@ class RefWatcher:
 SUBS = ["one", "two", "late", "leaver", "none"]
 
 
-def h_watcher(ctx, kinds, subs):
+def h_watcher(ctx, kinds, subs, short_gap=0.05):
+    """short_gap: the length of a gap that is 'shorter than the timeout' (0.2 s).  With 0.12 two short gaps add
+    up to more than the timeout: a command that becomes pending when another was pending before it has its
+    own full window, counted from its own arrival."""
     with rigs.HidRig(ctx, 3) as rig:
         reps = [_mk_report(ctx, i, k) for i, k in enumerate(kinds)]
         gaps = [ctx.fresh_bool("long_gap%d" % i) for i in range(1, len(kinds))]
@@ -388,7 +391,7 @@ def h_watcher(ctx, kinds, subs):
                 handles["B"] = d.bus_traffic.register(subscriber("B"))
             for i, (rep, ev) in enumerate(reps):
                 if i > 0:
-                    await asyncio.sleep(0.35 if gaps[i - 1] else 0.05)
+                    await asyncio.sleep(0.35 if gaps[i - 1] else short_gap)
                     if i == 1 and subs == "late":
                         handles["L"] = d.bus_traffic.register(subscriber("L"))
                         out["late_joined_after"] = None
@@ -505,6 +508,12 @@ def cases(tier):
                    ("edt", "backward", "extended"), ("config", "config", "config"), ("query", "query", "backward"),
                    ("edt", "config", "config")):
             cs.append(Case("watch-" + "-".join(ks), h_watcher, {"kinds": ks, "subs": "one"}, install=inst))
+        # the same with gaps of 120 ms: every forward frame resolves what was pending before it, so each
+        # pending command's window starts at its own arrival (two such gaps exceed one 200 ms window)
+        for ks in (("query", "query", "backward"), ("config", "config", "config"), ("query", "config", "config"),
+                   ("config", "query", "backward")):
+            cs.append(Case("watch120-" + "-".join(ks), h_watcher, {"kinds": ks, "subs": "one", "short_gap": 0.12},
+                           install=inst))
     else:
         lead = ["dapc", "query", "config", "edt", "extended", "cmd24", "event", "backward"]
         for k1 in lead:
